@@ -6,7 +6,7 @@ import props
 
 TEXT = {
  "C01": ("proof", "5-C01", "Every obligation generated from the real source of InMemoryStorage's methods against behaviour-case contracts taken from the documented storage contract (return value, exception class, whole post-view, representation invariant R1-R3/Rsep) is discharged by z3 for all inputs and all pre-states satisfying the invariant; finite histories follow by induction over calls.",
-         "in-memory backend only so far; RDB/gRPC/Redis assumed; library contracts in pyvc/lib.py trusted; see evidence.assumptions"),
+         "in-memory and journal backends proved; RDB(sqlite) and cached RDB only by a bounded differential stand-in against the proved in-memory storage (labelled bounded, not proved); gRPC/Redis assumed; library contracts in pyvc/lib.py trusted; see evidence.assumptions"),
  "C03": ("proof", "5-C03", "Ghost lock-set obligations: every read/write of a field of the storage object, and of every mutable container reachable from it, lies inside `with self._lock` (one obligation per access, decided by the symbolic executor's held-lock set on every path). With the sequential contracts of C01 this gives atomicity of each call by the standard mutex argument (assumed meta-theorem).",
          "schedules are not explored; the mutex meta-theorem is assumed; only InMemoryStorage so far"),
  "C04": ("proof", "5-C04", "Compare-and-set contract of set_trial_state_values (RUNNING succeeds only from WAITING: behaviour case `lost` returns False and changes nothing) and the WAITING-cursor invariant R4, discharged for all inputs/pre-states; the journal replay handler and JournalStorage.set_trial_state_values carry the same compare-and-set cases. At the Study level, against the abstract storage contract: Study._pop_waiting_trial_id returns None having changed nothing, or the id of exactly the one trial that this call moved WAITING -> RUNNING (a raising claim leaves every trial as it was); Study.ask (default usage) returns a Trial whose id is either newly created RUNNING or claimed by this very call, every other trial unchanged; Trial._suggest returns the fixed (enqueued) parameter value.",
